@@ -123,7 +123,9 @@ def run(chk, prop):
             continue
         probes = mutants.probes_zoo(seedv) if prop == "C08" else mutants.probes_plain(seedv)
         # (schemas with format-significant text in their keys are few: all their probes are kept)
-        special = "[123" in core.json.dumps(s.get("keys", [])) or "[123" in core.json.dumps(s.get("type", []))
+        sj = core.json.dumps(s)
+        special = s["t"] in ("list", "dict", "any", "alias") and (
+            "[123" in sj or any('"t": "%s"' % t in sj for t in ("uuid4", "datetime", "date", "bytes")))
         if per_seed is not None and len(probes) > per_seed and not special:
             probes = [probes[0]] + chk.rng.sample(probes[1:], per_seed - 1)
         for v in probes:
